@@ -33,6 +33,14 @@ def collect(ctx, entry_names):
     return bodies, tops, T, Dz
 
 
+_SWAP = {'Lt': 'Gt', 'Gt': 'Lt', 'Le': 'Ge', 'Ge': 'Le', 'Eq': 'Eq', 'Ne': 'Ne'}
+
+
+def _same_cmp(op, a, b, val):
+    """`val` is the reviewed fact `Op(x, y)`; the same comparison written with swapped operands (`y Op' x`) is the same fact."""
+    return '%s(%s, %s)' % (op, a, b) == val or (op in _SWAP and '%s(%s, %s)' % (_SWAP[op], b, a) == val)
+
+
 def requires_hold(ctx, Dz, s, requires):
     """every required fact dominates the site block"""
     P = ctx.prog
@@ -61,7 +69,22 @@ def requires_hold(ctx, Dz, s, requires):
         for b, blk in cands:
             c = P.cfg(b)
             gf = Dz.gf(b)
-            if kind == 'call':
+            if kind == 'call' and val.endswith('is_empty'):
+                # `x.is_empty()` may be written `x.len() == 0` / `0 == x.len()` / `x.len() != 0`: the comparison of a length with 0
+                # counts as the emptiness test
+                for (bid, i, op, a, bb) in Dz.cmps(b):
+                    if op in ('Eq', 'Ne') and ((a.endswith('.len()') and bb == '0_usize') or (bb.endswith('.len()') and a == '0_usize')):
+                        if c.dominates(bid, blk):
+                            ok = True
+                            break
+                        for acc in ('true', 'false'):
+                            good, _ = gf.check_sink((bid, i), acc, blk, unconditional=True)
+                            if good:
+                                ok = True
+                                break
+                    if ok:
+                        break
+            if kind == 'call' and not ok:
                 for bid, k, t in P.call_keys(b):
                     if not (k.endswith(val) or val in k):
                         continue
@@ -87,7 +110,7 @@ def requires_hold(ctx, Dz, s, requires):
                             ok = True
             elif kind == 'cmp':
                 for (bid, i, op, a, bb) in Dz.cmps(b):
-                    if '%s(%s, %s)' % (op, a, bb) != val:
+                    if not _same_cmp(op, a, bb, val):
                         continue
                     if c.dominates(bid, blk):
                         ok = True
